@@ -103,13 +103,14 @@ pub fn cycles<const V: u32>(d: &mut Driver<V>, p: &Params, ncycles: u64, heap_mb
         while allocated < budget {
             safepoint();
             let size = match mix {
-                0 => 24 + 8 * d.rng.below(16) as usize,
-                1 => 8 * d.rng.range(3, 600) as usize,
+                // every object of a cycle has one reference field: at least 32 bytes
+                0 => 32 + 8 * d.rng.below(16) as usize,
+                1 => 8 * d.rng.range(4, 600) as usize,
                 2 => {
                     if d.rng.chance(1, 50) {
                         8 * d.rng.range(2000, 30000) as usize
                     } else {
-                        8 * d.rng.range(3, 100) as usize
+                        8 * d.rng.range(4, 100) as usize
                     }
                 }
                 3 => 8 * d.rng.range(1000, 12000) as usize,
